@@ -3,9 +3,10 @@
    original model cannot be evaluated at all (TLC error), which would abort a whole batch:
      - a map handle whose number names no map of the program (VMaps[fd] outside its domain) reaching a helper call,
      - pointer + constant with a constant near 2^31 (TLC integers are 32 bit),
-     - a backward jump around a map lookup: `vnext` (the next lookup id) grows without bound and the exploration
-       never ends (no program of at most 150 instructions performs 60 lookups without a loop).
-   Such a step ends the path with the pseudo-rule "MODEL-ERROR" (checks/x10.py counts it as `model_error`, i.e. the
+     - a backward jump: the original is written for forward jumps only ("finitely many paths"); around a loop the
+       next lookup id, pointer offsets and the proven packet range grow without bound and the exploration never
+       ends.  Reaching a jump instruction with a negative offset ends the path with "MODEL-LOOP".
+   Such a step ends the path with the pseudo-rule "MODEL-ERROR" (checks/x10.py counts both as `model_error`, i.e. the
    original model gives no verdict); everything else is the original VNext, unchanged.                          *)
 EXTENDS Verifier
 
@@ -18,6 +19,9 @@ Hazard ==
     \/ /\ Cls(i.op) = 7 /\ AluCode(i.op) \in {0, 1} /\ ~SrcIsReg(i.op) /\ i.dst \in 0 .. 9
        /\ (ImmInt(i) > 1000000000 \/ ImmInt(i) < -1000000000)
        /\ vreg[i.dst].t \in {"stk", "pkt", "mv"}
-TNext == IF vverdict = <<"run">> /\ (vnext > 60 \/ (VIns.dst <= 10 /\ VIns.src <= 10 /\ Hazard)) THEN Reject("MODEL-ERROR") ELSE VNext
+BackJump == LET i == VIns IN Cls(i.op) \in {5, 6} /\ AluCode(i.op) \notin {8, 9} /\ i.off < 0
+TNext == IF vverdict = <<"run">> /\ BackJump THEN Reject("MODEL-LOOP")
+         ELSE IF vverdict = <<"run">> /\ VIns.dst <= 10 /\ VIns.src <= 10 /\ Hazard THEN Reject("MODEL-ERROR")
+         ELSE VNext
 TSpec == VInit /\ [][TNext]_vvars
 =============================================================================
